@@ -2775,6 +2775,8 @@ func runC13(r *Rng, tier string, n int) {
 	}
 	// ---- E. a start that fails after srv.started was set
 	failedStart()
+	// ---- F. NotifyStartedFunc callbacks that call back into the Server (reentrant.go)
+	reentrantNotify()
 
 	stGMu.Lock()
 	for k, v := range stG {
